@@ -168,7 +168,7 @@ Proof.
   pose proof (at_suffix_head fmt n' ltac:(fold len; lia)) as Hat. fold a in Hat.
   pose proof (fetch_prefix_ok fmt m Hm) as Hfp.
   exists (tr ++ tr2 ++ []), n'. split; [lia|].
-  split; [rewrite !bytes_of_app, Hb2; unfold bytes_of at 3; cbn [flat_map]; rewrite app_nil_r; exact H4|].
+  split; [rewrite app_nil_r, bytes_of_app, Hb2; exact H4|].
   split; [exact H3|].
   unfold next_format, fetch_prefix.
   destruct (skipn n' fmt) as [|c t] eqn:El.
